@@ -28,6 +28,8 @@ TYPES = ['reg', 'reg', 'reg', 'reg', 'lnk', 'fifo', 'dir', 'blk', 'chr']
 class Lnk(Engine):
     name = 'lnk'
     keep_prefix = 1
+    parallel = 8
+    timeout = 3000
 
     def gen(self, rng, tier):
         n = 1500 if tier == 'quick' else 40000
